@@ -48,6 +48,12 @@ func runC04(c *Ctx) {
 	info := r.FI.Pkg.TypesInfo
 	c.Floor("C04.1-create-sites", len(r.Creates), 1)
 	c.everyObservedPodIsPlaced(r, "C04.5-every-observed-pod-is-placed")
+	// the desired set the reconcile works on is the helper's: its walk over the delete slots (C01.3) decides
+	// which ordinals are wanted and which are condemned
+	c.skipWrap = true
+	c.helperChain()
+	c.boundComputation()
+	c.skipWrap = false
 	for i, cr := range r.Creates {
 		arg := cr.Args[1]
 		name := siteName(r.FI.Obj.Name(), "CreateStatefulPod", i, arg)
